@@ -19,7 +19,7 @@ SPEC = {
         ("_build_matching_path(back-tracking follows the stored predecessor links to a most probable predecessor; depth counts emitting entries; result reversed from the chosen entry: loop invariants)", 'backtrack', r'(^chain:|::inv-(init|preserved)::)'),
         ("K-upsert(distinct states are filed under distinct keys: the key is the tuple of labels, observation index and depth)", 'upsert', r'^upsert:absent')],
     'bounded': [
-        ('walk-in-the-graph', suites.case_C04, 1500, 200000, RULE + '; ' + 'non-trivial = best path visits at least two different states; histories of <= 4 operations', '')],
+        ('walk-in-the-graph', suites.case_C04, 1500, 200000, RULE + '; ' + 'one case in six with labels that are strings of exactly two characters; for every edge of every map the moves edges_nbrto offers are compared with the road graph and the declared links; non-trivial = best path visits at least two different states; histories of <= 4 operations', '')],
 }
 
 
